@@ -114,7 +114,7 @@ def process_level(res, tier):
 def run(res, tier):
     res.assumptions += [
         "centroid comparison only where blob and image keep |offset|+3 cells clear of the border; 'inside the grid' is demanded everywhere",
-        "the two deterministic Fokker-Planck tracking approximations are documented as approximations: only 'finite and inside the grid' is demanded of them",
+        "the two deterministic Fokker-Planck tracking approximations are documented as approximations: over many steps only 'finite and inside the grid' is demanded of them; over one step a particle on a blob's centre has to move as the blob's centroid does to within a quarter of the shift plus a hundredth of a cell (part fpflow)",
         "stochastic model: private PRNG re-seeded with enumerated seeds; ensemble of 4096 particles, 5 sigma/sqrt(N) on the mean, 6 % on the width",
         "process level: /Particles stores q(index) of the truncated grid coordinate, so a particle may appear up to one cell below its position in each direction (tolerance 1.5 cells)"]
     c = _api.run(res, tier, ["C15_tracking"])
